@@ -6,6 +6,8 @@ import (
 	"encoding/xml"
 	"strconv"
 
+	"github.com/danos/mgmterror"
+	"github.com/danos/utils/pathutil"
 	"github.com/sdcio/yang-parser/vrt"
 )
 
@@ -166,4 +168,78 @@ func VerifH_C17_Paths() {
 	}
 	vrt.Observe("verdict", obs, incomplete, err == nil)
 	vrt.Assert((err == nil) == want, "c17.verdict")
+	if err == nil || want {
+		return
+	}
+	// the error identifies the first offending element
+	k, kind := specOffender(c17Spec, p, 0, incomplete, true)
+	f, isF := err.(mgmterror.Formattable)
+	vrt.Assert(isF, "c17.error-is-a-management-error")
+	if !isF {
+		return
+	}
+	bad := ""
+	for _, t := range f.GetInfo() {
+		if t.XMLName.Local == "bad-element" {
+			bad = t.Value
+		}
+	}
+	vrt.Observe("error", f.GetPath(), bad, k, kind)
+	switch kind {
+	case offUnknown: // unknown child, or a token after the last one a leaf / leaf-list allows
+		vrt.Assert(vrt.And(vrt.StrEq(f.GetPath(), pathutil.Pathstr(p[:k])), vrt.StrEq(bad, p[k])), "c17.error-names-the-first-offending-element")
+	case offValue: // key or leaf value rejected by its type: the path leads to the value
+		vrt.Assert(vrt.StrEq(f.GetPath(), pathutil.Pathstr(p[:k+1])), "c17.error-path-leads-to-the-rejected-value")
+	case offIncomplete:
+		vrt.Assert(vrt.StrEq(f.GetPath(), pathutil.Pathstr(p)), "c17.error-path-is-the-incomplete-path")
+	}
+}
+
+const (
+	offUnknown = iota
+	offValue
+	offIncomplete
+	offUnspecified
+)
+
+// specOffender: index and kind of the first offending element of a rejected path.
+func specOffender(n *c17Node, p []string, at int, incomplete bool, root bool) (int, int) {
+	switch n.kind {
+	case c17Container:
+		if len(p) == 0 {
+			return at, offIncomplete
+		}
+		c := n.child(p[0])
+		if c == nil {
+			return at, offUnknown
+		}
+		return specOffender(c, p[1:], at+1, incomplete, false)
+	case c17List:
+		if len(p) == 0 {
+			return at, offIncomplete
+		}
+		if !c17TypeOK(c17Uint, p[0]) {
+			return at, offValue
+		}
+		p, at = p[1:], at+1
+		c := n.child(p[0])
+		if c == nil {
+			return at, offUnknown
+		}
+		return specOffender(c, p[1:], at+1, incomplete, false)
+	default: // leaf, leaf-list
+		if len(p) == 0 {
+			return at, offIncomplete
+		}
+		if n.kind == c17Leaf && n.typ == c17Empty {
+			if len(p) > 1 {
+				return at, offUnspecified // which of several tokens after an empty leaf is "first offending" is not settled
+			}
+			return at, offUnknown // an empty leaf takes no value: the token itself is the offender
+		}
+		if len(p) > 1 {
+			return at + 1, offUnknown
+		}
+		return at, offValue
+	}
 }
